@@ -91,3 +91,34 @@ Proof. vm_compute. split; reflexivity. Qed.
 
 Print Assumptions C06_backspace_returning_empty.
 Print Assumptions C06_fixed_backspace_returning_empty.
+
+(** "Repeated backspaces always reach the idle state": from ANY state of either method (reachable or not), any
+    sequence of plain / ctrl backspaces that is at least as long as the composition (phonetic: the typed text; fixed:
+    the composed text plus one for a waiting vowel sign) ends with no session ongoing.  The bound is the worst case:
+    every backspace on a non-idle state strictly shortens the composition ([backspace_shortens], [x_backspace_shortens]). *)
+Theorem C06_backspaces_reach_idle :
+  forall (Q : oracles) c ctrls s, (length (p_buf s) <= length ctrls)%nat -> p_ongoing (p_backspaces Q c s ctrls) = false.
+Proof. exact backspaces_reach_idle. Qed.
+
+Theorem C06_each_backspace_shortens :
+  forall (Q : oracles) c s ctrl, p_buf s <> [] -> (length (p_buf (fst (p_backspace Q c s ctrl))) < length (p_buf s))%nat.
+Proof. exact backspace_shortens. Qed.
+
+Theorem C06_fixed_backspaces_reach_idle :
+  forall (Q : oracles) c ctrls s, (x_measure s <= length ctrls)%nat -> x_ongoing (x_backspaces Q c s ctrls) = false.
+Proof. exact x_backspaces_reach_idle. Qed.
+
+Check C06_backspaces_reach_idle :
+  forall (Q : oracles) c ctrls s, (length (p_buf s) <= length ctrls)%nat -> p_ongoing (p_backspaces Q c s ctrls) = false.
+
+(** non-vacuity: "ka" then two backspaces - the first leaves a session, the second ends it *)
+Example C06_backspaces_nonvacuous :
+  match p_run test_oracles cfg_all_on (p_new [] []) [PKey 41120 0; PKey 41110 0] with
+  | Some (_, s, _) => p_ongoing (p_backspaces test_oracles cfg_all_on s [false]) = true /\
+                      p_ongoing (p_backspaces test_oracles cfg_all_on s [false; false]) = false
+  | None => False
+  end.
+Proof. vm_compute. split; reflexivity. Qed.
+
+Print Assumptions C06_backspaces_reach_idle.
+Print Assumptions C06_fixed_backspaces_reach_idle.
